@@ -1775,8 +1775,12 @@ func zipAllInnerSubscriptions[T any](outerCtx context.Context, sources []Observa
 		// free memory
 		mu.Lock()
 
-		completed = nil
-		values = nil
+		// The slices themselves stay: an update that is delivering a tuple right now (the
+		// downstream may have ended from inside its Next) still looks at them afterwards.
+		for i := range values {
+			completed[i] = true
+			values[i] = nil
+		}
 
 		mu.Unlock()
 	}
